@@ -150,6 +150,8 @@ def run(F, chk):
     check_member_loops(F, X5)
     X6 = chk.rule('X6', 'names reported as extracted are confined: from enclosed_name()/sanitize_destination_path(), or requested names behind a Path::components confinement predicate')
     check_reported_names(F, X6)
+    X7 = chk.rule('X7', 'extract_archives leaves an archive entry out of the matching files only on a path that evaluated the glob pattern for it')
+    check_member_selection(F, X7)
 
 
 # ---------------------------------------------------------------------------------------------
@@ -361,3 +363,66 @@ def check_reported_names(F, X6):
                          'extract_to_dir reports a name as extracted at %s that comes from %s without passing enclosed_name()/a confinement predicate: a member name such as `../x` is reported (and then opened by the caller) '
                          'when that path exists outside the temporary directory' % (ex.loc(t.sp), ', '.join(raw) or 'an unconfined source'), where=ex.loc(t.sp))
     X6.floor('pushes into the result of extract_to_dir', n, 2)
+
+
+# ---------------------------------------------------------------------------------------------
+# X7: a member is rejected only by the pattern
+
+def check_member_selection(F, X7):
+    """"exactly the members that match the requested pattern": in the selection loop of extract_archives an archive entry is
+    left out (the iteration ends without pushing it to the list of matching files) only on a path on which the glob
+    `Pattern::matches` was evaluated for it - or which found the entry equal to the pattern text and then excluded it as a
+    directory.  A shortcut that skips the matcher for some patterns (e.g. "no * or ?") deselects members that do match."""
+    from paths import Explorer
+    n = 0
+    for b in F.order:
+        if b.crate != 'lib' or b.kind == 'closure' or not b.path.startswith('adlt::utils::unzip::extract_archives'):
+            continue
+        cfg = CFG(b)
+        E = ExprBuilder(cfg, fold_named=True)
+        X7.fn(b.path)
+        pushes = [blk.i for blk in b.calls() if re.search(r'Vec::<T, A>::push$', blk.term.callee.path) and 'std::string::String' in (blk.term.args[0].ty or '') and
+                  'matching_files' in show(ExprBuilder(cfg).operand(blk.term.args[0]))]
+        matchers = set(blk.i for blk in b.calls() if re.search(r'glob::Pattern::matches\w*$', blk.term.callee.path))
+        for hd, lb in cfg.loops().items():
+            nxt = [x for x in lb if b.blocks[x].term.k == 'call' and b.blocks[x].term.callee.path.endswith('Iterator::next')]
+            lp = [p for p in pushes if p in lb]
+            if not nxt or not lp or not (matchers & lb):
+                continue
+            n += 1
+            X7.sites += 1
+            nb = nxt[0]
+
+            def block_effect(blk, facts, nb=nb, lb=lb):
+                if blk.i == nb:
+                    return frozenset(f for f in facts if f[0] != 'verdict')
+                if blk.i in matchers or blk.i in lp:
+                    return frozenset(facts | {('verdict',)})
+                return facts
+
+            def edge_effect(blk, tgt, facts):
+                # `entry == pattern` true edge followed by the directory exclusion is a verdict too
+                if blk.term.k == 'switch':
+                    sc = show(E.switch_cond(blk))
+                    if 'str::ends_with' in sc or 'ends_with(' in sc:
+                        return frozenset(facts | {('verdict',)})
+                return facts
+            from paths import partial_flags
+            ex = Explorer(cfg, block_effect=block_effect, edge_effect=edge_effect, var_roots=set(), extra_flags=partial_flags(cfg))
+            ex.run()
+            X7.paths += ex.n_states
+            # states arriving at the loop's next() from inside the loop (back edges)
+            bad = None
+            for p in cfg.pred[nb]:
+                if p not in lb:
+                    continue
+                for st in ex.out_states.get(p, ()):
+                    facts_on_edge = edge_effect(b.blocks[p], nb, st[1])
+                    if ('verdict',) not in facts_on_edge:
+                        bad = (p, st)
+            if bad is None:
+                X7.ok(sample={'selection_loop_head': hd, 'an_entry_is_left_out_only_after': 'Pattern::matches (or the directory exclusion)'})
+            else:
+                X7.violation(('member-rejected-without-matching', b.path), 'in %s an archive entry can be left out of the matching files on a path that never evaluates the glob pattern for it: members that match the requested '
+                             'pattern are not extracted' % b.path, where=b.loc(b.blocks[bad[0]].term.sp))
+    X7.floor('member selection loops using glob::Pattern::matches', n, 1)
